@@ -449,6 +449,13 @@ func (fr *frame) spawnClosure(f Val, st *State, reach string, what string) {
 	} else {
 		ex.used["spawned closure without contract: "+callee.String()] = true
 	}
+	{
+		// history variable: how many goroutines running this closure have been started (nspawned("F$1"))
+		nk := "X|nspawn." + callee.Name()
+		ex.registerKey(nk, sInt)
+		cur := ex.heapGet(st, nk, sInt)
+		ex.setH(st, nk, ex.name("nspawn", ite(reach, app("+", cur, "1"), cur), sInt))
+	}
 	if c := ex.w.contracts[callee]; c != nil {
 		for _, name := range sortedKeys(c.Contrib) {
 			ex.bumpExpected(st, name, c.Contrib[name], reach)
@@ -576,7 +583,7 @@ func (fr *frame) join(st *State, reach string) {
 			if ghostFramed[k] && !anyUnknown && !declared[k] {
 				continue
 			}
-			if strings.HasPrefix(k, "X|expect.") || strings.HasPrefix(k, "X|ncalls.") {
+			if strings.HasPrefix(k, "X|expect.") || strings.HasPrefix(k, "X|ncalls.") || strings.HasPrefix(k, "X|nspawn.") {
 				continue // bookkeeping of this goroutine only
 			}
 			if ex.counters[k[2:]] {
